@@ -8,6 +8,8 @@
   (an out-of-range read is UB in C++ and excluded by the well-formedness hypotheses of the theorems).
 -/
 import AITB.Model.Factored
+import AITB.Model.Num
+import AITB.Gen.Constants
 namespace AITB.Factored
 
 /-- `merge(const PartialKeys & lhs, const PartialKeys & rhs)` (sorted union of keys) -/
@@ -116,6 +118,42 @@ def mergeLoop (sMerge : Rat) (sp : List Nat) (basis : BF) : FV → Option FV
           -- `curBasis = plusSubset(space, basis, curBasis)`: with sign s the incoming basis is s*basis
           some (subsetOp 1 sp { basis with vals := basis.vals.map (sMerge * ·) } cur :: rest)
       else (mergeLoop sMerge sp basis rest).map (cur :: ·)
+
+/-- `checkEqualGeneral(v, 0.0)` of Utils/Core.hpp: `|v - 0| <= equalToleranceSmall`, or
+    `|v - 0| <= min(|v|, |0|) * equalToleranceGeneral` -/
+def ceqGeneral0 (v : Rat) : Bool :=
+  decide (absQ (v - 0) ≤ AITB.Gen.equalToleranceSmall) ||
+  decide (absQ (v - 0) ≤ (if absQ 0 < absQ v then absQ 0 else absQ v) * AITB.Gen.equalToleranceGeneral)
+
+/-- `checkEqualGeneral(curBasis.values, 0.0)` -/
+def isZeroVec (vals : List Rat) : Bool := vals.all ceqGeneral0
+
+/-- `if (clearZero && checkEqualGeneral(curBasis.values, 0.0)) retval.bases.erase(begin + i)` -/
+def dropIfZero (cz : Bool) (b : BF) (rest : FV) : FV := if cz && isZeroVec b.vals then rest else b :: rest
+
+/-- the loop of `minusEqual(space, retval, basis, clearZero)`: `mergeLoop` plus the removal of a merged basis
+    that has become (numerically) zero -/
+def mergeLoopCZ (cz : Bool) (sMerge : Rat) (sp : List Nat) (basis : BF) : FV → Option FV
+  | [] => none
+  | cur :: rest =>
+      let retBigger := decide (basis.tag.length ≤ cur.tag.length)
+      let minB := if retBigger then basis else cur
+      let maxB := if retBigger then cur else basis
+      if sortedContains maxB.tag minB.tag then
+        if retBigger then some (dropIfZero cz (subsetOp sMerge sp cur basis) rest)
+        else some (dropIfZero cz (subsetOp 1 sp { basis with vals := basis.vals.map (sMerge * ·) } cur) rest)
+      else (mergeLoopCZ cz sMerge sp basis rest).map (cur :: ·)
+
+def fvAddBasisCZ (cz : Bool) (sMerge sPush : Rat) (sp : List Nat) (fv : FV) (basis : BF) : FV :=
+  match mergeLoopCZ cz sMerge sp basis fv with
+  | some fv' => fv'
+  | none => fv ++ [{ basis with vals := basis.vals.map (sPush * ·) }]
+
+/-- `minusEqual(space, FactoredVector &, const BasisFunction &, clearZero)` -/
+def fvMinusEqualCZ (sub cz : Bool) (sp : List Nat) (fv : FV) (b : BF) : FV :=
+  if sub then fvAddBasisCZ cz (-1) (-1) sp fv b else fvAddBasisCZ cz 1 1 sp fv b
+
+def fvMinusEqualFVCZ (sub cz : Bool) (sp : List Nat) (fv rhs : FV) : FV := rhs.foldl (fvMinusEqualCZ sub cz sp) fv
 
 def fvAddBasis (sMerge sPush : Rat) (sp : List Nat) (fv : FV) (basis : BF) : FV :=
   match mergeLoop sMerge sp basis fv with
